@@ -157,6 +157,9 @@ def gen_leaf(rng, ns, nu, allow, in_split_state=False, in_split_input=False):
             s = ('delay', dx, du)
         elif k == 'rbf':
             s = ('rbf', int(rng.integers(0, 3)), int(rng.integers(1, 4)))
+            if s[1] % 3 == 0 and ns + nu > 5:
+                # with real sub-estimators id 0 is GridCenters(2 points per feature): 2^(ns+nu) centres
+                s = ('rbf', 1, s[2])
         elif k == 'kernel':
             s = ('kernel', int(rng.integers(0, 4)), int(rng.integers(1, 4)))
         elif k == 'sk':
